@@ -654,4 +654,26 @@ example :
     p.slowDur = 60000000000 ∧ p.maxWaitHalf = 0 ∧ p.waitOpen = 30000000000 ∧ p.failTh = 50 ∧ p.permitted = 2 := by
   simp [policyOf]
 
+/-! ### audit round (item 9 / P3): non-vacuity with `maxWaitHalf > 0` and with a time-based window -/
+
+/-- `maxWaitDurationInHalfOpenState = 0.5 s` on a reachable history: two failures open the breaker, after
+the open wait the trial (id 3) is admitted and the second caller refused; the trial stalls, and 0.5 s + 1 ns
+later the next caller finds the half-open breaker re-opened (id 4) — `maxwait_reopens`' hypotheses are met -/
+example : (run ⟨50, 100, false, 2, 1, 2, 1000000000, 500000000, 1000000000⟩
+      (new ⟨50, 100, false, 2, 1, 2, 1000000000, 500000000, 1000000000⟩ 0) 0 []
+      [Op.acquire, Op.acquire, Op.record 0 true 0, Op.record 1 true 0, Op.advance 1000000000, Op.acquire,
+       Op.acquire, Op.advance 500000001, Op.acquire]).map (fun o => (o.permitted, o.id, o.st)) =
+    [(true, 1, 1), (true, 1, 1), (false, 0, 1), (false, 0, 3), (false, 0, 3), (true, 3, 2), (false, 3, 2),
+     (false, 0, 2), (false, 4, 3)] := by decide
+
+/-- a time-based window of 2 s: the failure of second 0 is evicted when the next result arrives 2.5 s later
+(the window total stays 1), two failures within the window then open the breaker — `timewin_refines` /
+`opens_iff_threshold` on a reachable history -/
+example : (run ⟨50, 100, true, 2, 1, 2, 1000000000, 0, 1000000000⟩
+      (new ⟨50, 100, true, 2, 1, 2, 1000000000, 0, 1000000000⟩ 0) 0 []
+      [Op.acquire, Op.record 0 true 0, Op.advance 2500000000, Op.acquire, Op.record 3 true 0, Op.acquire,
+       Op.record 5 true 0, Op.acquire]).map (fun o => (o.permitted, o.st, o.total)) =
+    [(true, 1, 0), (false, 1, 1), (false, 1, 1), (true, 1, 1), (false, 1, 1), (true, 1, 1), (false, 3, 2),
+     (false, 3, 2)] := by decide
+
 end EgVerif.C08
